@@ -16,6 +16,7 @@ hasdot = z3.Function("hasdot", KeyS, z3.BoolSort())
 mainpart = z3.Function("mainpart", KeyS, KeyS)
 nestedpart = z3.Function("nestedpart", KeyS, KeyS)
 dictget = z3.Function("dictget", V, KeyS, V)  # reading.get(k) for a dict-valued reading
+substr = z3.Function("substr", KeyS, KeyS, z3.BoolSort())
 attrval = z3.Function("attrval", z3.IntSort(), KeyS, V)  # getattr(candle, name, None) as a reading
 
 
@@ -35,7 +36,14 @@ class SKey:
     def contains(self, item, ex, st):
         if item == ".":
             return hasdot(self.t)
+        if isinstance(item, SKey):
+            # `a in b` on strings: an arbitrary relation that contains equality (a string contains itself)
+            st.assume(z3.Implies(item.t == self.t, substr(item.t, self.t)))
+            return substr(item.t, self.t)
         raise Unsupported("substring test on a symbolic name")
+
+    def truthy(self):
+        return True  # registered names are non-empty
 
     def getattr(self, name, ex, st, node):
         from .exec import Builtin
